@@ -268,7 +268,7 @@ package task
 //@   site fingerprint.WithTempDir#1 requires arg0 == e.TempDir.Fingerprint                            [C04]
 //@   site fingerprint.IsTaskUpToDate#1 ghost fpTouched := !e.Dry
 //@   site (*Executor).runCommand#1 ghost attempted := true
-//@   site (*Executor).statusOnError#1 ghost set cleaned(t)
+//@   site (*Executor).statusOnError ghost set cleaned(t)
 //@   site (*Executor).mkdir#1 requires !e.Dry                                                         [C12]
 //@   ensures result != nil && fpTouched ==> cleaned(t)                                                [C04]
 
